@@ -151,7 +151,7 @@ def run(ctx):
     env = {"GRAMMARS": gpath}
     vlib.tlc_mc(ctx, "MC_Peg", "MC_Peg_big.cfg" if thorough else "MC_Peg.cfg", env=env, timeout=3000)
     for b in ("not", "alt", "rep", "opt", "fatal"):
-        r = vlib.tlc("MC_Peg", "MC_Peg_bug_%s.cfg" % b, workers=4, env=env)
+        r = vlib.tlc("MC_Peg", "MC_Peg_bug_%s.cfg" % b, workers=4, env=env, expect="Laws")
         if "Laws" not in r.invariant_violated:
             raise vlib.Infra("vacuity guard: MC_Peg with Bug=%s did not violate Laws" % b)
         ctx.extra.setdefault("vacuity_guards", []).append({"cfg": "MC_Peg_bug_%s.cfg" % b, "violates": "Laws", "states": r.distinct})
